@@ -34,14 +34,17 @@ Theorem md_rows_width : forall n bs h rows,
 Proof. exact md_rows_width_lemma. Qed.
 Print Assumptions md_rows_width.
 
-(* Every message's section is a contiguous segment of the document; it holds exactly one table
+(* [mk_table h rows] is the table whose cells are the ESCAPED cells of [rows] ('|' -> "\|", line
+   breaks -> "<br>", as md_exporter.go writes them), so that a pipe or a line break in a name or a
+   description cannot add or end cells in the rendered text.
+   Every message's section is a contiguous segment of the document; it holds exactly one table
    when the message has signals (none otherwise), and that table has one row per signal
    occurrence — every signal at every multiplexing depth, once in each group section it belongs
    to, group sections opened by a marker row — starting with name, start bit and size. *)
 Theorem md_signal_rows : forall n m, In m (msgs_of_net n) ->
   seg (blocks n) (msg_blocks m)
   /\ tables (msg_blocks m) =
-       match m_sigs m with [] => [] | _ => [Table sig_header (rows_sigs 0 (m_sigs m))] end
+       match m_sigs m with [] => [] | _ => [mk_table sig_header (rows_sigs 0 (m_sigs m))] end
   /\ Forall2 row_matches (rows_sigs 0 (m_sigs m)) (occs 0 (m_sigs m)).
 Proof. exact md_signal_rows_lemma. Qed.
 Print Assumptions md_signal_rows.
@@ -51,9 +54,9 @@ Print Assumptions md_signal_rows.
 Theorem md_appendix_exact : forall n, well_formed n ->
   (exists pre, blocks n = pre ++ appendix_blocks n)
   /\ tables (appendix_blocks n) =
-       Table type_header (map type_row (types_listed n))
-       :: Table unit_header (map unit_row (units_listed n))
-       :: map (fun e => Table value_header (map value_row (se_values e))) (enums_listed n)
+       mk_table type_header (map type_row (types_listed n))
+       :: mk_table unit_header (map unit_row (units_listed n))
+       :: map (fun e => mk_table value_header (map value_row (se_values e))) (enums_listed n)
   /\ headings 4 (appendix_blocks n) = map se_name (enums_listed n)
   /\ lists_exactly st_id (types_listed n) (all_types n)
   /\ lists_exactly su_id (units_listed n) (all_units n)
